@@ -3,7 +3,9 @@
 (* Trace specification for kernel calls recorded from the real code at     *)
 (* scale (float records, real windows, arbitrary w).  One trace = one      *)
 (* argument tuple executed on every backend; each event is one call:       *)
-(*    [b |-> backend, mode, K, q |-> <<MXX, MYY, mu_r, mu_i, M2>>]         *)
+(*    [b |-> backend, mode, K, q |-> <<MXX, MYY, mu_r, mu_i, M2>>, m2r]    *)
+(* (m2r = M2 over the definition's M2 in Q 2^20, or -1 when the scatter is *)
+(* below 1e-18 of the power squared and cannot be compared relatively)     *)
 (* with the five statistics quantised by the recorder: second-order ones   *)
 (* divided by Bx*By (Bx = sum|win*x| over the worst segment: |X| <= Bx),   *)
 (* the scatter by (Bx*By)^2, then multiplied by 2^20 and rounded.          *)
@@ -42,6 +44,7 @@ Run ==
        /\ Check("power_nonnegative", q[1] >= 0 /\ q[2] >= 0)
        /\ Check("normalised_by_bound", q[1] <= Q + Slack /\ q[2] <= Q + Slack)
        /\ Check("cauchy_schwarz", MulQ20(q[3], q[3]) + MulQ20(q[4], q[4]) <= MulQ20(q[1], q[2]) + 8)
+       /\ Check("scatter_agrees_relative_to_its_own_size", e.m2r = -1 \/ Within(e.m2r, Q, 1024 + 16 * Traces[tid].c.budget))
        /\ ref' = IF ref = <<>> THEN q ELSE ref
     /\ l' = l + 1
     /\ UNCHANGED tid
